@@ -3,7 +3,7 @@
    All statements quantify over EVERY reachable state of the life-cycle LTS Srv/Conc.v: any number of requests,
    any interleaving of the receive, worker, responder and send steps, any behaviour of the implementation. *)
 From Coq Require Import NArith List Bool PeanoNat.
-From V9 Require Shape.ShapeLib Shape.Params.
+From V9 Require Shape.ShapeLib Shape.PFid.
 From V9 Require Import Lib.GoSem Gen.Consts Srv.Conc Srv.ConcProofs.
 From V9 Require Srv.FidRef Srv.FidRefProofs.
 From V9 Require Srv.Seq.
@@ -108,12 +108,12 @@ Print Assumptions C11_quiescent_reachable.
    conn.closed under the connection lock and links; unlink clears linked before its DecRef; DecRef marks dead at
    0, deletes, then FidDestroy; Conn.close sets closed under the lock and unlinks; the post-handlers use retain /
    unlink: the fixed FidRef model ---- *)
-Theorem C11_source_is_the_fixed_reference_counting : Params.fidref_fixed_of_source = true.
-Proof. exact Params.fidref_is_fixed. Qed.
+Theorem C11_source_is_the_fixed_reference_counting : PFid.fidref_fixed_of_source = true.
+Proof. exact PFid.fidref_is_fixed. Qed.
 Print Assumptions C11_source_is_the_fixed_reference_counting.
 
 Theorem C11_all_fids_destroyed_exactly_once_in_source : forall s,
-  FidRef.reach Params.fidref_fixed_of_source s -> FidRef.quiescent s ->
+  FidRef.reach PFid.fidref_fixed_of_source s -> FidRef.quiescent s ->
   (forall o, In o (FidRef.objs s) -> FidRef.o_destroyed o = 1) /\ FidRef.table s = [].
-Proof. exact Params.quiescent_all_destroyed_once_src. Qed.
+Proof. exact PFid.quiescent_all_destroyed_once_src. Qed.
 Print Assumptions C11_all_fids_destroyed_exactly_once_in_source.
